@@ -326,7 +326,13 @@ func (m *Machine) obligation(kind string, cond *term.Term, msg string, site stri
 		return
 	}
 	if m.proved[cond] {
+		if debugModel {
+			fmt.Fprintf(os.Stderr, "OB-cached %s %s\n", msg, term.Dump(cond, 4))
+		}
 		return
+	}
+	if debugModel {
+		fmt.Fprintf(os.Stderr, "OB %s %s\n", msg, term.Dump(cond, 4))
 	}
 	m.obligQ++
 	neg := m.T.Not(cond)
